@@ -119,6 +119,10 @@ pub trait Prop: Sync + Send + 'static {
     fn max_shrink_iters(&self) -> u32 {
         4000
     }
+    /// Real-time limit for one case; beyond it the run is inconclusive (hang).
+    fn case_timeout_s(&self) -> u64 {
+        120
+    }
     /// Generated cases over all shards.
     fn cases(&self, tier: Tier) -> u64;
     fn generate(&self, g: &mut Gen) -> Self::Case;
@@ -137,6 +141,7 @@ pub trait Part: Sync + Send {
     fn name(&self) -> &'static str;
     fn tape_len(&self) -> usize;
     fn max_shrink_iters(&self) -> u32;
+    fn case_timeout_s(&self) -> u64;
     fn cases(&self, tier: Tier) -> u64;
     fn exhaustive(&self, tier: Tier) -> bool;
     fn decode(&self, tape: &[u32]) -> Value;
@@ -231,6 +236,9 @@ impl<P: Prop> Part for P {
     }
     fn max_shrink_iters(&self) -> u32 {
         Prop::max_shrink_iters(self)
+    }
+    fn case_timeout_s(&self) -> u64 {
+        Prop::case_timeout_s(self)
     }
     fn cases(&self, tier: Tier) -> u64 {
         Prop::cases(self, tier)
@@ -348,6 +356,8 @@ pub struct ShardReport {
     pub violations: Vec<Value>,
     pub known_hits: BTreeMap<String, u64>,
     pub parts: BTreeMap<String, u64>,
+    #[serde(default)]
+    pub inconclusive: Vec<String>,
 }
 
 struct ShardState {
@@ -365,6 +375,13 @@ impl ShardState {
         }
         for (k, n) in &o.counts {
             *self.report.classes.entry((*k).to_string()).or_default() += n;
+        }
+        // a case that could not be judged (infrastructure missing): the run
+        // is inconclusive (exit 2), never "held"
+        for c in &o.classes {
+            if (c.starts_with("server-not-started") || c.starts_with("fuzz-not-run")) && self.report.inconclusive.len() < 3 {
+                self.report.inconclusive.push(format!("part {part}: {}", o.classes.join("; ")));
+            }
         }
         if o.nontrivial || self.report.samples.is_empty() {
             let fresh = if o.nontrivial { self.nontrivial.insert(h) } else { true };
@@ -394,7 +411,34 @@ pub struct ShardCtx<'a> {
     pub known: BTreeSet<String>,
 }
 
+/// Per-case real-time watchdog state: when the current case started (ms since
+/// process start, 0 = none) and how long a case of the current part may take.
+static CASE_STARTED_MS: std::sync::atomic::AtomicU64 = std::sync::atomic::AtomicU64::new(0);
+static CASE_LIMIT_MS: std::sync::atomic::AtomicU64 = std::sync::atomic::AtomicU64::new(120_000);
+static PROCESS_START: std::sync::OnceLock<Instant> = std::sync::OnceLock::new();
+
+fn elapsed_ms() -> u64 {
+    PROCESS_START.get_or_init(Instant::now).elapsed().as_millis() as u64 + 1
+}
+
+/// Exit code of a shard whose case ran over its real-time limit (a hang):
+/// the run is inconclusive, the case in flight is recovered by the parent.
+pub const EXIT_CASE_TIMEOUT: i32 = 4;
+
+fn start_watchdog() {
+    elapsed_ms();
+    std::thread::spawn(|| loop {
+        std::thread::sleep(Duration::from_millis(500));
+        let s = CASE_STARTED_MS.load(std::sync::atomic::Ordering::SeqCst);
+        let limit = CASE_LIMIT_MS.load(std::sync::atomic::Ordering::SeqCst);
+        if s != 0 && elapsed_ms().saturating_sub(s) > limit {
+            std::process::exit(EXIT_CASE_TIMEOUT);
+        }
+    });
+}
+
 fn write_current(file: &std::fs::File, part: usize, kind: u8, payload: &[u8]) {
+    CASE_STARTED_MS.store(elapsed_ms(), std::sync::atomic::Ordering::SeqCst);
     // layout: [kind u8][part u8][len u32 le][payload]; a single pwrite at 0
     let mut buf = Vec::with_capacity(payload.len() + 6);
     buf.push(kind);
@@ -427,6 +471,7 @@ pub fn run_shard(ctx: &ShardCtx) -> ShardReport {
                 continue;
             }
         }
+        CASE_LIMIT_MS.store(part.case_timeout_s() * 1000, std::sync::atomic::Ordering::SeqCst);
 
         // 1. deterministic enumeration
         {
@@ -497,6 +542,7 @@ pub fn run_shard(ctx: &ShardCtx) -> ShardReport {
             let before = state.borrow().report.evaluations;
             let mut runner = TestRunner::new(remaining_cfg.clone());
             let result = runner.run(&strategy, |tape| {
+                CASE_STARTED_MS.store(elapsed_ms(), std::sync::atomic::Ordering::SeqCst);
                 if !failed.get() {
                     write_current(&cur, pi, b'T', bytes_of(&tape));
                 }
@@ -564,6 +610,7 @@ pub fn run_shard(ctx: &ShardCtx) -> ShardReport {
         }
     }
 
+    CASE_STARTED_MS.store(0, std::sync::atomic::Ordering::SeqCst);
     let mut st = state.into_inner();
     st.report.nontrivial_hashes = st.nontrivial.into_iter().collect();
     st.report
@@ -742,6 +789,9 @@ pub fn run_parent(def: &PropertyDef, tier: Tier, seed: u64, exe: &Path) -> RunRe
                         for (k, v) in r.parts {
                             *merged.parts.entry(k).or_default() += v;
                         }
+                        for m in r.inconclusive {
+                            inconclusive.push(format!("shard {shard}: {m}"));
+                        }
                         for (k, v) in r.known_hits {
                             *merged.known_hits.entry(k).or_default() += v;
                         }
@@ -753,6 +803,18 @@ pub fn run_parent(def: &PropertyDef, tier: Tier, seed: u64, exe: &Path) -> RunRe
                     }
                     None => inconclusive.push(format!("shard {shard}: no report")),
                 }
+            }
+            Some(st) if st.code() == Some(EXIT_CASE_TIMEOUT) => {
+                // a case ran over its real-time limit: inconclusive, but say which
+                let saved = recover_current(def, &cur).map(|(part, case, tape)| {
+                    let dir = Path::new(VERIF_ROOT).join("target").join("hangs");
+                    let _ = std::fs::create_dir_all(&dir);
+                    let p = dir.join(format!("{}-{}-shard{}.json", def.id, tier.name(), shard));
+                    let v = json!({"property": def.id, "part": part, "signature": "hang", "detail": "case exceeded its real-time limit", "case": case, "tape": tape});
+                    let _ = std::fs::write(&p, serde_json::to_string_pretty(&v).unwrap_or_default());
+                    p.display().to_string()
+                });
+                inconclusive.push(format!("shard {shard}: a case exceeded its real-time limit (hang?); case in flight saved to {}", saved.unwrap_or_else(|| "<not recoverable>".into())));
             }
             Some(st) => {
                 // crashed: signal (stack overflow, abort) or unexpected exit
@@ -916,6 +978,7 @@ pub fn shard_main(
         .filter(|k| k.property == def.id)
         .map(|k| k.signature)
         .collect();
+    start_watchdog();
     let report = if shard == nshards {
         // replay worker
         install_panic_hook();
